@@ -7,6 +7,7 @@ CONSTANTS
   MaxRuns = 2
   Tolerated <- NoTol
   FnOut = FALSE
+  Poller = FALSE
   Gen = "full"
 INVARIANTS EmitScn
 CHECK_DEADLOCK FALSE
